@@ -1,5 +1,7 @@
 package harness
 
+import "testing"
+
 // propDef ties a property to its plan generator(s) and its oracle.
 type propDef struct {
 	ID string
@@ -7,6 +9,8 @@ type propDef struct {
 	Gen func(seed uint64, tier string, idx int) *Plan
 	// Enum returns the number of enumerated (non-random) plans of a tier and a constructor for the i-th.
 	Enum func(tier string) (int, func(i int) *Plan)
+	// EnumT is Enum for enumerations that have to execute baselines first (fault-point enumeration).
+	EnumT func(t *testing.T, tier string) (int, func(i int) *Plan)
 	// Check evaluates the property's own rules on a finished run.
 	Check func(r *Result) []Violation
 	// Foreign lists events that belong to other properties; a run that shows one is truncated, not reported.
